@@ -57,7 +57,7 @@ theorem high (π σ : NSeq) (c : List Nat) (hs : PSurj π) (hiso : FullIso π σ
 theorem fits_complete (π σ : NSeq) (c : List Nat) (k : Nat) (hk : k < π.length)
     (hs : PSurj π) (hb : PBdd π) (hiso : FullIso π σ c)
     (hσ : ∀ a, a < π.length → σ.getD (c.getD a 0) 0 < σ.length)
-    (hceil : CeilSpec π k k (leftCeil π k))
+    (hceil : CeilSpec' π k k (leftCeil π k))
     (occ : List Nat) (hocc : ∀ a, a < k → occ.getD a 0 = c.getD a 0) :
     let d := (patternDetails π).getD k ⟨none, none, 0, 0⟩
     lowerBound σ d occ ≤ (σ.getD (c.getD k 0) 0 : Int) ∧
